@@ -32,7 +32,7 @@ FILES = {
             dirty="SELECT a  FROM b -- é\n", fixed="SELECT a FROM b -- é\n"),
     2: dict(name="f2", enc="utf-8", mode=0o604, bom=False,
             dirty="SELECT c  FROM d -- üß üß äöü\n", fixed="SELECT c FROM d -- üß üß äöü\n"),
-    3: dict(name="f3", enc="utf-8", mode=0o600, bom=False,
+    3: dict(name="f3", enc="utf-8", mode=0o604, bom=False,
             dirty="SELECT e  FROM f\n", fixed="SELECT e FROM f\n"),
 }
 SUFFIX = "_fx"
